@@ -1096,3 +1096,39 @@ Proof.
   - cbn [bind]. eapply vk_der_roundtrip17; eassumption.
   - cbn. intros X. repeat (destruct X as [X|X]; [discriminate|]). exact X.
 Qed.
+
+(* raw private-key strings *)
+Lemma sk_string_roundtrip order_ok pubmul ed_sk c k px py ks :
+  1 <= k -> k < c_n c -> pubmul c k = Ok (px, py) -> px < c_p c -> py < c_p c ->
+  sk_to_string c k = Ok ks ->
+  blen ks = baselen c /\ sk_from_string order_ok pubmul ed_sk (CW c) ks = Ok (SkW c k px py).
+Proof.
+  intros Hk1 Hkn Hpm Hpx Hpy Hks.
+  assert (Hfit : k < 256 ^ orderlen (c_n c)) by (apply lt_order_fits, Hkn).
+  unfold sk_to_string in Hks.
+  destruct (string_to_number_number_to_string k (c_n c) ks Hfit Hks) as [Hnum Hbl].
+  split; [exact Hbl|].
+  unfold sk_from_string, baselen. rewrite Hbl, N.eqb_refl. cbn [negb]. rewrite Hnum. cbn [bind].
+  unfold sk_from_secret_exponent.
+  apply N.leb_le in Hk1. apply N.ltb_lt in Hkn. rewrite Hk1, Hkn. cbn [andb negb].
+  rewrite Hpm. cbn [bind]. unfold vk_from_public_point.
+  apply N.ltb_lt in Hpx, Hpy. rewrite Hpx, Hpy. cbn [andb negb].
+  apply N.ltb_lt in Hkn. destruct (c_n c =? 0) eqn:E0; [apply N.eqb_eq in E0; lia|]. reflexivity.
+Qed.
+
+(* a private-key string of the wrong length is rejected *)
+Lemma sk_from_string_wrong_length order_ok pubmul ed_sk c s : blen s <> baselen c ->
+  sk_from_string order_ok pubmul ed_sk (CW c) s = Err EMalformedPoint.
+Proof.
+  intro H. unfold sk_from_string. apply N.eqb_neq in H. rewrite H. reflexivity.
+Qed.
+
+(* a point string whose length is that of no enabled encoding is rejected *)
+Lemma point_from_bytes_wrong_length sqrt_mod c s v ve :
+  blen s <> 2 * orderlen (c_p c) -> blen s <> 2 * orderlen (c_p c) + 1 ->
+  blen s <> 2 * orderlen (c_p c) / 2 + 1 ->
+  point_from_bytes sqrt_mod c s v ve = Err EMalformedPoint.
+Proof.
+  intros H1 H2 H3. unfold point_from_bytes.
+  apply N.eqb_neq in H1, H2, H3. rewrite H1, H2, H3. reflexivity.
+Qed.
